@@ -4,7 +4,10 @@
 // Fork of harness/store/zz_verif_store.go for C03 / C06 with three more observations:
 //   - Ids: the URI -> internal id table (the model orders keys by the ids the store assigned),
 //   - op "refkeys": the raw outgoing / incoming reference keys, decoded,
-//   - related op with "bodies": the properties of every returned related entity.
+//   - related op with "bodies": the properties of every returned related entity,
+//   - op "race": a forced two-writer schedule on one dataset (writer 1 - a batch or a single-dataset transaction - is
+//     held at its lock.wait hook until writer 2 has committed) with probes run while writer 1 is held ("pre": before
+//     writer 2 starts, "mid": after writer 2 committed), the instants of those two phases and both commit times.
 package server
 
 import (
@@ -15,6 +18,8 @@ import (
 	"os"
 	"sort"
 	"strings"
+	"sync"
+	"sync/atomic"
 	"time"
 
 	"github.com/DataDog/datadog-go/v5/statsd"
@@ -22,6 +27,7 @@ import (
 	"go.uber.org/zap"
 
 	"github.com/mimiro-io/datahub/internal/conf"
+	"github.com/mimiro-io/datahub/internal/verifhook"
 )
 
 type VerifEnt struct {
@@ -39,6 +45,7 @@ type VerifSet struct {
 type VerifTimeRef struct {
 	AfterOp int  `json:"after_op"` // index of a write op of this history
 	Exact   bool `json:"exact"`    // exactly the commit time of that op (if it stored anything), else an instant after it
+	Phase   string `json:"phase,omitempty"` // race ops: "pre" = while writer 1 is held, before writer 2 starts; "mid" = after writer 2 committed, before writer 1 is released
 }
 
 type VerifOp struct {
@@ -60,6 +67,10 @@ type VerifOp struct {
 	Starts   []string      `json:"starts,omitempty"`
 	At       *VerifTimeRef `json:"at,omitempty"`
 	Bodies   bool          `json:"bodies,omitempty"`
+	Second   []VerifEnt    `json:"second,omitempty"`    // race: the second writer's batch (the first one's is Ents)
+	FirstTxn bool          `json:"first_txn,omitempty"` // race: the first writer is a (single-dataset) transaction
+	Pre      []VerifOp     `json:"pre,omitempty"`       // race: read ops run while writer 1 is held, before writer 2 starts
+	Mid      []VerifOp     `json:"mid,omitempty"`       // race: read ops run after writer 2 committed, before writer 1 is released
 }
 
 type VerifCase struct {
@@ -94,6 +105,10 @@ type VerifOpObs struct {
 	NewSeqs int          `json:"newseqs,omitempty"`
 	OutKeys []VerifRefKey `json:"outkeys,omitempty"`
 	InKeys  []VerifRefKey `json:"inkeys,omitempty"`
+	Time1   int64         `json:"time1,omitempty"` // race: commit time of writer 1 (0 if it stored nothing)
+	Time2   int64         `json:"time2,omitempty"` // race: commit time of writer 2
+	PreObs  []VerifOpObs  `json:"preobs,omitempty"`
+	MidObs  []VerifOpObs  `json:"midobs,omitempty"`
 }
 
 type VerifObs struct {
@@ -265,6 +280,12 @@ func verifAt(op VerifOp, times map[int]int64) (int64, bool) {
 	if op.At == nil {
 		return 0, false
 	}
+	if op.At.Phase == "pre" {
+		return times[1<<20+2*op.At.AfterOp], true
+	}
+	if op.At.Phase == "mid" {
+		return times[1<<20+2*op.At.AfterOp+1], true
+	}
 	if op.At.Exact {
 		if t, ok := times[-1-op.At.AfterOp]; ok && t > 0 {
 			return t, true
@@ -307,6 +328,106 @@ func verifDoOp(h *verifHub, op VerifOp, idx int, times map[int]int64, tokens map
 		if _, err := h.dsm.CreateDataset(op.Ds, nil); err != nil {
 			oo.Err = err.Error()
 		}
+	case "race":
+		// writer 1 is held at lock.wait (it has read nothing of the dataset yet and holds no lock), writer 2 runs to
+		// completion, then writer 1 is released: the outcome must be the sequential history "writer 2, then writer 1"
+		ds := h.dsm.GetDataset(op.Ds)
+		if ds == nil {
+			oo.Err = "no dataset"
+			return
+		}
+		e1, err := verifParse(store, op.Ents)
+		if err != nil {
+			oo.Err = "parse: " + err.Error()
+			return
+		}
+		e2, err := verifParse(store, op.Second)
+		if err != nil {
+			oo.Err = "parse: " + err.Error()
+			return
+		}
+		for _, e := range e1 {
+			oo.Lens = append(oo.Lens, verifLen(e))
+		}
+		for _, e := range e2 {
+			oo.Lens = append(oo.Lens, verifLen(e))
+		}
+		newTime := func(from uint64) (int64, uint64) { // Recorded of the change-log entries from position [from] on
+			var t int64
+			n := from
+			_, _ = ds.ProcessChanges(from, 0, false, func(e *Entity) {
+				t = int64(e.Recorded)
+				n++
+			})
+			return t, n
+		}
+		wm0, _ := ds.GetChangesWatermark2()
+		held := make(chan struct{})
+		release := make(chan struct{})
+		var once sync.Once
+		var phase int32
+		verifhook.SetHandler(func(name, arg string) {
+			if arg != op.Ds {
+				return
+			}
+			if atomic.LoadInt32(&phase) == 0 && name == "lock.wait" {
+				fired := false
+				once.Do(func() { fired = true })
+				if fired {
+					atomic.StoreInt32(&phase, 1)
+					close(held)
+					<-release
+				}
+			}
+		})
+		defer verifhook.SetHandler(nil)
+		done1 := make(chan error, 1)
+		if op.FirstTxn {
+			txn := &Transaction{DatasetEntities: map[string][]*Entity{op.Ds: e1}}
+			go func() { done1 <- store.ExecuteTransaction(txn) }()
+		} else {
+			go func() { done1 <- ds.StoreEntities(e1) }()
+		}
+		select {
+		case <-held:
+		case err := <-done1:
+			oo.Err = fmt.Sprintf("writer 1 never reached lock.wait (err=%v)", err)
+			return
+		case <-time.After(10 * time.Second):
+			oo.Err = "writer 1 hang"
+			return
+		}
+		time.Sleep(time.Microsecond)
+		times[1<<20+2*idx] = time.Now().UnixNano()
+		time.Sleep(time.Microsecond)
+		for _, sub := range op.Pre {
+			oo.PreObs = append(oo.PreObs, verifDoOp(h, sub, idx, times, tokens))
+		}
+		if err := ds.StoreEntities(e2); err != nil {
+			oo.Err = "writer 2: " + err.Error()
+		}
+		var wm1 uint64
+		oo.Time2, wm1 = newTime(wm0)
+		time.Sleep(time.Microsecond)
+		times[1<<20+2*idx+1] = time.Now().UnixNano()
+		time.Sleep(time.Microsecond)
+		for _, sub := range op.Mid {
+			oo.MidObs = append(oo.MidObs, verifDoOp(h, sub, idx, times, tokens))
+		}
+		close(release)
+		select {
+		case err := <-done1:
+			if err != nil && oo.Err == "" {
+				oo.Err = "writer 1: " + err.Error()
+			}
+		case <-time.After(20 * time.Second):
+			oo.Err = "writer 1 hang after release"
+			return
+		}
+		oo.Time1, _ = newTime(wm1)
+		oo.Time = verifLastTime(ds)
+		verifStamp(idx, times, oo.Time, times[1<<30])
+		times[1<<30] = times[idx]
 	case "refkeys":
 		oo.OutKeys = verifRefKeys(store, OutgoingRefIndex)
 		oo.InKeys = verifRefKeys(store, IncomingRefIndex)
